@@ -621,7 +621,7 @@ def judge(obs, sc=None):
     unsafe = sc is not None and unsafe_scenario(sc)
     for e in obs["escapes"]:
         if e["exc"] == "HangDetected":
-            bad.append(("C15:hang", "a call into the library did not return within the wall-clock budget (api stream, block %d, %d bytes): an unbounded loop" % (e["block"], e["len"])))
+            bad.append(("C15:hang", "a call into the library did not return within the CPU-time budget (api stream, block %d, %d bytes): an unbounded loop" % (e["block"], e["len"])))
             continue
         if unsafe and e["exc"] in ENC_EXC:
             bad.append((D28_SIG, D28_WHAT % (e["exc"], "datagram_received (block %d)" % e["block"])))
@@ -629,7 +629,7 @@ def judge(obs, sc=None):
             bad.append(("C15:escape:%s" % e["exc"], "%s escaped datagram_received (api stream, block %d, %d bytes)" % (e["exc"], e["block"], e["len"])))
     for e in obs["errors"]:
         if e["exc"] == "HangDetected":
-            bad.append(("C15:hang", "a timer callback or task step did not return within the wall-clock budget (api stream): %s" % e["where"][:60]))
+            bad.append(("C15:hang", "a timer callback or task step did not return within the CPU-time budget (api stream): %s" % e["where"][:60]))
             continue
         if unsafe and e["exc"] in ENC_EXC:
             bad.append((D28_SIG, D28_WHAT % (e["exc"], "a timer callback (%s)" % e["where"][:60])))
